@@ -10,7 +10,7 @@ import json, os, subprocess, sys, glob, shutil
 from concurrent.futures import ThreadPoolExecutor
 
 VERIF = os.path.dirname(os.path.dirname(os.path.abspath(__file__)))
-SCRATCH = "/tmp/seedrun"
+SCRATCH = "/tmp/seedrun-%d" % os.getpid()   # one scratch tree per invocation
 
 
 def sh(cmd, cwd=None):
@@ -80,7 +80,7 @@ def main():
     if in_place:
         results = [one(d, True) for d in dirs]
     else:
-        with ThreadPoolExecutor(max_workers=8) as ex:
+        with ThreadPoolExecutor(max_workers=14) as ex:
             results = list(ex.map(one, dirs))
         shutil.rmtree(SCRATCH, ignore_errors=True)
     for name, res, err in results:
